@@ -1,11 +1,14 @@
 \* C10 leg A quick: worlds of <= 2 series (names n0 n1, values a b absent), matcher sets of <= 2 from
-\* 3 names x (EQ/NEQ x 4 literals + RE/NRE x {.*, .+, 3 alternations, 2 classes}), every lazy choice;
-\* histories of <= 2 queries + evictions over the n0 matchers
+\* 2 names x (EQ/NEQ x 3 literals + RE/NRE x {.*, .+, 2 alternations, 1 class}), every lazy choice;
+\* histories of <= 2 queries + evictions over single n0 matchers
 SPECIFICATION Spec
 CONSTANTS MaxSeries = 2
           MaxMatchers = 2
           MaxHistory = 2
+          Lits = {"", "a", "c"}
+          MatcherNames = {"n0", "n1"}
           HistNames = {"n0"}
+          HistTypes = {"EQ", "NEQ", "RE", "NRE"}
           SetAlts <- SetAltsQuick
           ClsAlts <- ClsAltsQuick
 INVARIANT C10_AnswerIsTheSelection
